@@ -16,7 +16,7 @@ for d in sorted(glob.glob('/verif/seeded/C*-*'), key=lambda p:(p.split('/')[-1].
         mm=re.search(r'key=(\S+)',caught[-1]); key=mm.group(1) if mm else ''
     title=(m.get('title') or '').replace('|','/')
     if len(title)>150: title=title[:147]+'...'
-    status = ('caught after strengthening' if (missed_first and caught) else ('caught' if caught else 'NOT caught'))
+    status = ('missed at first; caught by a strengthened or sibling check' if (missed_first and caught) else ('caught' if caught else 'NOT caught'))
     rows.append('| %s | %s | %s | %s `%s` |'%(n,title,status,','.join(by),key[:70]))
 print('| Seed | Change | Result (quick tier) | Caught by / first key |')
 print('|---|---|---|---|')
